@@ -229,7 +229,11 @@ func (e *kvElection) Start(ctx context.Context) error {
 		if err := e.attemptAcquire(); err != nil {
 			e.recordAcquireAttempt("failed")
 			e.recordFailure(classifyErrorType(err))
-			e.becomeFollower()
+			// After a restart an acquisition left over from the previous run may have won the
+			// record in the meantime: that term must not be ended silently here
+			if !e.IsLeader() {
+				e.becomeFollower()
+			}
 		}
 	}()
 
